@@ -2,8 +2,8 @@
 (* Trace validation for per-bin statistics and equal-occupancy binning: every       *)
 (* recorded call of the real code (esutil.stat.histogram / Binner) is judged by the *)
 (* property-level spec of BinStats.tla.  One ndjson line per record:                *)
-(*   {"id": k, "c": <case>, "obs": [<observation of one call variant>, ...]}        *)
-(* A failing clause of observation k is reported as "<k>:<clause>".                 *)
+(*   {"id": k, "kind": ..., "c": <case>, "obs" | "evs": [...]}   (kinds: see below) *)
+(* A failing clause of observation / event k is reported as "<k>:<clause>".         *)
 EXTENDS BinStats, Json, IOUtils
 
 VARIABLES blk, tid
@@ -18,8 +18,13 @@ PickTrace == blk > 0 /\ tid = 0
              /\ \E t \in ((blk - 1) * BlockSize + 1)..VMin2(blk * BlockSize, NT) : tid' = t /\ blk' = blk
 Next == PickBlock \/ PickTrace
 
+\* kinds of records:  "case"    {c, obs: [observation of one call variant, ...]}
+\*                    "scale"   {c (pattern case with c.scale), obs: [compressed observation, ...]}
+\*                    "history" {c (data), evs: [event with its observation, ...]} - one Binner, calls in order
 FailingRec(r) ==
-    UNION {{ToString(k) \o ":" \o f : f \in BFailing(r.c, r.obs[k])} : k \in DOMAIN r.obs}
+    IF r.kind = "history" THEN BHistoryFailing(r.c, r.evs)
+    ELSE IF r.kind = "scale" THEN UNION {{ToString(k) \o ":" \o f : f \in BScaleFailing(r.c, r.c.scale, r.obs[k])} : k \in DOMAIN r.obs}
+    ELSE UNION {{ToString(k) \o ":" \o f : f \in BFailing(r.c, r.obs[k])} : k \in DOMAIN r.obs}
 
 Check == tid > 0 =>
     LET r == Traces[tid]  f == FailingRec(r)
